@@ -29,5 +29,13 @@ for log in ("mutres2.log", "mutres5.log"):
 res.update(json.load(open(os.path.join(V, "seeded", "NEUTRALISED.json"))))
 res = {k: v for k, v in res.items() if os.path.isdir(os.path.join(V, "seeded", k))}
 json.dump(res, open(p, "w"), indent=1, sort_keys=True)
+# merge the change / needs descriptions into the meta files
+D = json.load(open(os.path.join(V, "seeded", "DESCRIPTIONS.json")))
+for mid, d in D.items():
+    mp = os.path.join(V, "seeded", mid, "meta.json")
+    if os.path.exists(mp):
+        m = json.load(open(mp))
+        m.update(d)
+        json.dump(m, open(mp, "w"), indent=1)
 print(len(res), "results;", sum(1 for v in res.values() if v["caught"]), "caught;", sum(1 for v in res.values() if "neutralised" in v["caught_by"]), "neutralised;",
       [k for k, v in res.items() if not v["caught"] and "neutralised" not in v["caught_by"]])
